@@ -19,6 +19,13 @@
 (* holds because each request propagates on a private copy of its path taken from `settings`; the constant Leaky     *)
 (* switches the model to the defective variant (propagate on the shared objects) - used only to show that the        *)
 (* clauses below are not vacuous: TLC must then find a history violating Independent and NetworkFrozen.              *)
+(*                                                                                                                   *)
+(* Pipeline variant Redesign (compute_path_with_disjunction(redesign=True)): Process(r) = Route -> RedesignFor(r) on  *)
+(* the amplifiers of r's route and of its reverse -> Propagate(copy) -> Judge -> Assign.  The settings then DO change  *)
+(* (that is what the option is for), but only on the route of the request being computed (OnlyRouteRedesigned), the    *)
+(* new settings are those a design made for that request alone would give (RedesignIsForTheRequest) - so a result is   *)
+(* still a function of the request only (Independent, with Solo computed under the same option).  The defective        *)
+(* variant (Leaky) takes the gain an EARLIER redesign reduced as if the operator had set it.                            *)
 EXTENDS PlanningOps
 
 CONSTANTS Classes,     \* request classes of the pool (strings)
@@ -30,7 +37,10 @@ CONSTANTS Classes,     \* request classes of the pool (strings)
           ModeTable,   \* sequence of [name, thr, pen] explored in this order by the automatic selection; pen = NONE when
                        \* the mode defines no impairment penalty, else the penalty (micro-dB) the path incurs
           NSlots,      \* slot indices 0..NSlots-1 on every OMS
-          Leaky        \* FALSE: the property's mechanism (private copy); TRUE: the defect
+          Leaky,       \* FALSE: the property's mechanism (private copy); TRUE: the defect
+          Redesign     \* FALSE: the network is designed once; TRUE: planning(redesign=True) / --redesign-per-request -
+                       \* before a request is propagated the amplifiers of its route (both directions) are designed
+                       \* again with the request's own channel as the reference
 
 VARIABLES settings, live, sim, occ, done, result, response, csv
 vars == <<settings, live, sim, occ, done, result, response, csv>>
@@ -50,8 +60,8 @@ Walk(d, st, path, k, p) ==
     IF k > Len(path) THEN [st |-> st, deficit |-> 0]
     ELSE LET a   == path[k]
              eff == MinI(st[a], d[a].pmax - p)
-             nx  == Walk(d, [st EXCEPT ![a] = eff], path, k + 1, p + eff - d[a].gain)
-         IN [st |-> nx.st, deficit |-> nx.deficit + (d[a].gain - eff)]
+             nx  == Walk(d, [st EXCEPT ![a] = eff], path, k + 1, p + eff - Design[a].gain)   \* the span loses the
+         IN [st |-> nx.st, deficit |-> nx.deficit + (Design[a].gain - eff)]                \* NOMINAL gain
 Gsnr(path, deficit) == 30000000 - 1500000 * Len(path) - 1000000 * deficit          \* micro-dB, abstract
 (* NLI is evaluated on a few channels spread over the propagated comb (r.nch carriers) and interpolated: evaluating   *)
 (* it on positions derived from ANOTHER comb costs accuracy.                                                          *)
@@ -130,7 +140,21 @@ Compute(d, st, simv, oc, c) ==
                     ELSE oc]
 
 DesignGains(d) == [gain |-> [a \in Amps |-> d[a].gain], rx |-> [x \in Rcvs |-> 0]]    \* fresh element objects
-Solo(c) == Compute(Design, DesignGains(Design), SimDefault, [o \in Oms |-> {}], c).res     \* the result of c computed alone
+
+(* design_network(pathreq, network.subgraph(route + reverse route)): every amplifier of the two directions of the      *)
+(* request's route gets the gain a design with the request's channel as reference gives it - the nominal gain, reduced  *)
+(* only as needed so that the request's own load does not exceed the maximum output - whatever it was set to before.    *)
+(* A request without a route redesigns nothing.  Leaky: the current (possibly already reduced) gain is taken as the     *)
+(* operator's and only ever reduced further.                                                                            *)
+RouteAmps(c) == LET r == Req[c]  path == Route(r) IN
+                IF path = <<>> THEN {} ELSE SeqRange(path) \cup SeqRange(IF path = r.via THEN r.rvia ELSE r.rshort)
+RedesignFor(s, c) ==
+    [a \in Amps |-> IF a \in RouteAmps(c)
+                    THEN [s[a] EXCEPT !.gain = MinI(IF Leaky THEN s[a].gain ELSE Design[a].gain, s[a].pmax - Req[c].load)]
+                    ELSE s[a]]
+SettingsFor(s, c) == IF Redesign THEN RedesignFor(s, c) ELSE s
+\* the result of c computed alone (under the same option)
+Solo(c) == LET d == SettingsFor(Design, c) IN Compute(d, DesignGains(d), SimDefault, [o \in Oms |-> {}], c).res
 
 -----------------------------------------------------------------------------
 Init == /\ settings = Design
@@ -145,14 +169,16 @@ Init == /\ settings = Design
 Process(c) ==
     /\ response = <<>>
     /\ c \notin SeqRange(done)
-    /\ LET start == IF Leaky THEN live ELSE DesignGains(settings)      \* deepcopy(path) vs the shared objects
-           x     == Compute(settings, start, sim, occ, c)
+    /\ LET d     == SettingsFor(settings, c)                           \* the redesign (if any) precedes the copy
+           start == IF Leaky /\ ~Redesign THEN live ELSE DesignGains(d) \* deepcopy(path) vs the shared objects
+           x     == Compute(d, start, sim, occ, c)
        IN /\ result' = [result EXCEPT ![c] = x.res]
+          /\ settings' = d
           /\ occ' = x.oc
-          /\ live' = IF Leaky THEN x.st ELSE live
-          /\ sim' = IF Leaky THEN [cut |-> x.cut] ELSE sim         \* the defect: what was derived is stored
+          /\ live' = IF Leaky /\ ~Redesign THEN x.st ELSE live
+          /\ sim' = IF Leaky /\ ~Redesign THEN [cut |-> x.cut] ELSE sim   \* the defect: what was derived is stored
     /\ done' = Append(done, c)
-    /\ UNCHANGED <<settings, response, csv>>
+    /\ UNCHANGED <<response, csv>>
 
 (* the outcome record (PlanningOps) of a processed class, and the report *)
 RxOf(g, pen) == [k \in MetricKeys |-> IF k \in {"pdl", "pmd"} THEN NONE
@@ -191,8 +217,14 @@ Independent ==       \* route, mode, GSNR figures and feasibility verdict: as if
     \A i \in 1..Len(done) : Core(result[done[i]]) = Core(Solo(done[i]))
 
 NetworkFrozen == [][settings' = settings /\ live' = live]_vars          \* computing requests changes no setting
+\* ... except, under the redesign option, the amplifiers of the route of the request being computed - and those are left
+\* as a design made for that request alone leaves them
+OnlyRouteRedesigned == [][live' = live /\ (done' # done =>
+                            \A a \in Amps : settings'[a] # settings[a] => a \in RouteAmps(done'[Len(done')]))]_vars
+RedesignIsForTheRequest == [][done' # done => LET c == done'[Len(done')] IN
+                                \A a \in RouteAmps(c) : settings'[a] = RedesignFor(Design, c)[a]]_vars
 SimParamsFrozen == [][sim' = sim]_vars                                  \* ... and no process-wide simulation parameter
-SettingsAreTheDesign == settings = Design /\ live = DesignGains(Design) /\ sim = SimDefault
+SettingsAreTheDesign == (Redesign \/ settings = Design) /\ live = DesignGains(Design) /\ sim = SimDefault
 
 OnlySlotsDependOnHistory ==     \* a result differs from the solo result only in its slots (or NO_SPECTRUM), and only
     \A i \in 1..Len(done) :     \* when an earlier SERVED request shares an OMS with it; the first one never differs
